@@ -128,6 +128,7 @@ LIB = {
                                                                                "expand_ragged_column", "check_offsets", "keep_mask_to_id_map")),
     "C14": lambda k, f: f in ("tsk_table_collection_subset", "tsk_table_collection_union", "tsk_table_collection_add_and_remap_node",
                               "tsk_check_subset_equality"),
+    "C16": lambda k, f: k == "genotypes",
     "C17": lambda k, f: k == "tables" and (f.startswith("tsk_table_sorter_") or f.startswith("cmp_") or f == "tsk_table_collection_sort"),
     "C18": lambda k, f: k == "convert" or f in ("is_discrete", "tsk_treeseq_init_trees", "tsk_treeseq_init_nodes", "tsk_treeseq_init_migrations",
                                                    "tsk_treeseq_init_mutations", "tsk_treeseq_get_discrete_time", "tsk_treeseq_get_discrete_genome"),
